@@ -9,6 +9,9 @@ sys.path.insert(0, HERE)
 import vlib  # noqa: E402
 
 
+SIMPLE = [('range', 'c++17')]
+
+
 def main():
     t0 = time.time()
     try:
@@ -17,6 +20,10 @@ def main():
         t1 = time.time()
         vlib.build_world_harness()
         print('world harness built (%.0fs)' % (time.time() - t1))
+        for name, std in SIMPLE:
+            t2 = time.time()
+            vlib.build_simple_harness(name, std=std)
+            print('%s harness built (%.0fs)' % (name, time.time() - t2))
     except vlib.BuildError as e:
         print(e)
         return 1
